@@ -2,6 +2,7 @@ package c12
 
 import (
 	"fmt"
+	"os"
 	"sort"
 	"strings"
 
@@ -25,6 +26,9 @@ type TCase struct {
 	Type   string   `json:"type"`
 	Repr   bool     `json:"representation_level"`
 	Calls  []string `json:"calls"` // "<Route>:<key>" | "Finish" | "Build"
+	// Parent, when set, names a list or map type whose value type is Type: the calls are then made on
+	// the assembler of the parent's *second* element, after a first element was assembled completely.
+	Parent string `json:"parent,omitempty"`
 }
 
 var TypedEngines = func() []typed.Engine { return []typed.Engine{typed.NewBindEngine()} }
@@ -32,34 +36,74 @@ var TypedEngines = func() []typed.Engine { return []typed.Engine{typed.NewBindEn
 type tkey struct {
 	name string // key as supplied at this level
 	own  string // the field / member / key it denotes at type level
-	val  ref.Val
+	val  ref.Val // the typed value the finished node must show
+	feed ref.Val // the data handed to the assembler at this level
 	req  bool
 	typ  string // the value's type name
 }
 
+func deepSize(v ref.Val) int {
+	n := 1
+	for _, c := range v.L {
+		n += deepSize(c)
+	}
+	for _, e := range v.M {
+		n += deepSize(e.V)
+	}
+	return n
+}
+
+// richest picks the largest non-null member of V(t) (the first of that size: the enumeration order
+// is fixed), so that an entry or field silently dropped shows.
+func richest(s *rs.Schema, t *rs.Type) (ref.Val, bool) {
+	best, size := ref.Val{}, 0
+	for _, v := range s.Values(t, 1) {
+		if v.K == ref.KNull || v.K == ref.KAbsent {
+			continue
+		}
+		if n := deepSize(v); n > size {
+			best, size = v, n
+		}
+	}
+	return best, size > 0
+}
+
 // keysOf lists the keys a builder of t at the given level accepts, with a valid value for each.
 func keysOf(s *rs.Schema, t *rs.Type, repr bool) ([]tkey, bool) {
-	var valOf func(tn string) (ref.Val, bool)
-	valOf = func(tn string) (ref.Val, bool) {
+	var valOf func(tn string) (ref.Val, ref.Val, bool)
+	valOf = func(tn string) (ref.Val, ref.Val, bool) {
 		ct := s.T(tn)
 		switch ct.Kind {
 		case rs.TInt:
-			return ref.Int(1), true
+			return ref.Int(1), ref.Int(1), true
 		case rs.TString:
-			return ref.Str("s"), true
+			return ref.Str("s"), ref.Str("s"), true
 		case rs.TBool:
-			return ref.Bool(true), true
+			return ref.Bool(true), ref.Bool(true), true
 		case rs.TList:
 			// a container value: one element (so that an entry silently dropped shows)
-			if e, ok := valOf(ct.ValType); ok && e.K != ref.KList && e.K != ref.KMap {
-				return ref.List(e), true
+			if e, _, ok := valOf(ct.ValType); ok && e.K != ref.KList && e.K != ref.KMap && scalarType(s, ct.ValType) {
+				return ref.List(e), ref.List(e), true
 			}
 		case rs.TMap:
-			if e, ok := valOf(ct.ValType); ok && e.K != ref.KList && e.K != ref.KMap {
-				return ref.Map(ref.E("k", e)), true
+			if e, _, ok := valOf(ct.ValType); ok && e.K != ref.KList && e.K != ref.KMap && scalarType(s, ct.ValType) && !s.ComplexKeys(ct) {
+				return ref.Map(ref.E("k", e)), ref.Map(ref.E("k", e)), true
 			}
 		}
-		return ref.Val{}, false
+		// every other type (structs of any strategy, unions, enums, links, containers of those): the
+		// richest member of V(T), fed in the form this level takes
+		if s.ComplexKeys(ct) {
+			return ref.Val{}, ref.Val{}, false
+		}
+		tv, ok := richest(s, ct)
+		if !ok {
+			return ref.Val{}, ref.Val{}, false
+		}
+		if repr {
+			rv, ok := s.Repr(ct, tv)
+			return tv, rv, ok
+		}
+		return tv, s.FeedType(ct, tv), true
 	}
 	var out []tkey
 	switch t.Kind {
@@ -68,7 +112,7 @@ func keysOf(s *rs.Schema, t *rs.Type, repr bool) ([]tkey, bool) {
 			return nil, false
 		}
 		for _, f := range t.Fields {
-			v, ok := valOf(f.Type)
+			v, fd, ok := valOf(f.Type)
 			if !ok {
 				return nil, false
 			}
@@ -76,11 +120,11 @@ func keysOf(s *rs.Schema, t *rs.Type, repr bool) ([]tkey, bool) {
 			if repr && f.Rename != "" {
 				name = f.Rename
 			}
-			out = append(out, tkey{name, f.Name, v, !f.Optional, f.Type})
+			out = append(out, tkey{name, f.Name, v, fd, !f.Optional, f.Type})
 		}
 		return out, true
 	case rs.TMap:
-		v, ok := valOf(t.ValType)
+		v, fd, ok := valOf(t.ValType)
 		if !ok {
 			return nil, false
 		}
@@ -93,9 +137,17 @@ func keysOf(s *rs.Schema, t *rs.Type, repr bool) ([]tkey, bool) {
 				}
 			}
 		}
-		return []tkey{{names[0], ks[0], v, false, t.ValType}, {names[1], ks[1], v, false, t.ValType}}, true
+		return []tkey{{names[0], ks[0], v, fd, false, t.ValType}, {names[1], ks[1], v, fd, false, t.ValType}}, true
 	}
 	return nil, false
+}
+
+func scalarType(s *rs.Schema, tn string) bool {
+	switch s.T(tn).Kind {
+	case rs.TInt, rs.TString, rs.TBool:
+		return true
+	}
+	return false
 }
 
 type tstate struct {
@@ -139,22 +191,72 @@ func expectedValue(s *rs.Schema, t *rs.Type, keys []tkey, done []string) ref.Val
 }
 
 // runTyped replays the calls on a fresh real builder, checking every call against the model.
-func runTyped(eng typed.Engine, s *rs.Schema, t *rs.Type, repr bool, keys []tkey, calls []string) (fs []core.Finding, st tstate, ended bool) {
+func runTyped(eng typed.Engine, s *rs.Schema, t *rs.Type, repr bool, keys []tkey, calls []string, parent *rs.Type) (fs []core.Finding, st tstate, ended bool) {
 	lvl := "type"
 	if repr {
 		lvl = "repr"
 	}
 	site := fmt.Sprintf("%s/%s/%s", eng.Name(), lvl, map[bool]string{true: "struct", false: "map"}[t.Kind == rs.TStruct])
+	if parent != nil {
+		site += map[bool]string{true: "-as-2nd-list-element", false: "-as-2nd-map-value"}[parent.Kind == rs.TList]
+	}
 	where := func(i int) string {
-		return fmt.Sprintf("%s %s.%s %s-level: calls %v, step %d (%s)", eng.Name(), s.Name, t.Name, lvl, calls, i, calls[i])
+		in := ""
+		if parent != nil {
+			in = " as the second element of " + parent.Name + " (first element complete)"
+		}
+		return fmt.Sprintf("%s %s.%s%s %s-level: calls %v, step %d (%s)", eng.Name(), s.Name, t.Name, in, lvl, calls, i, calls[i])
 	}
 	var nb datamodel.NodeBuilder
 	var ma datamodel.MapAssembler
+	var pla datamodel.ListAssembler
+	var pma datamodel.MapAssembler
+	var pkeys []string // the parent map's two keys, as this level takes them and as the type level shows them
+	var pown []string
 	var err error
 	if pan := core.Guard(func() {
-		nb = eng.Proto(s, t.Name, repr).NewBuilder()
-		ma, err = nb.BeginMap(int64(len(keys)))
+		if parent == nil {
+			nb = eng.Proto(s, t.Name, repr).NewBuilder()
+			ma, err = nb.BeginMap(int64(len(keys)))
+			return
+		}
+		// the first element: every key in order, by AssembleEntry, finished
+		first := ref.Map()
+		for _, k := range keys {
+			first.M = append(first.M, ref.Entry{K: k.name, V: k.feed})
+		}
+		nb = eng.Proto(s, parent.Name, repr).NewBuilder()
+		var va datamodel.NodeAssembler
+		if parent.Kind == rs.TList {
+			if pla, err = nb.BeginList(2); err != nil {
+				return
+			}
+			if err = ref.Assign(pla.AssembleValue(), first); err != nil {
+				return
+			}
+			va = pla.AssembleValue()
+		} else {
+			pown = s.KeyStrings(parent)[:2]
+			pkeys = append([]string(nil), pown...)
+			if pma, err = nb.BeginMap(2); err != nil {
+				return
+			}
+			if va, err = pma.AssembleEntry(pkeys[0]); err != nil {
+				return
+			}
+			if err = ref.Assign(va, first); err != nil {
+				return
+			}
+			if va, err = pma.AssembleEntry(pkeys[1]); err != nil {
+				return
+			}
+		}
+		ma, err = va.BeginMap(int64(len(keys)))
 	}); pan != "" || err != nil {
+		if parent != nil {
+			// the prefix is a legal call sequence: its failure is the finding
+			return []core.Finding{core.F(site+"/legal-prefix-fails", "%s.%s in %s: first element and the second's BeginMap: %v %s", s.Name, t.Name, parent.Name, err, pan)}, st, true
+		}
 		return []core.Finding{core.F(site+"/beginmap-fails", "%s.%s: %v %s", s.Name, t.Name, err, pan)}, st, true
 	}
 	for i, c := range calls {
@@ -177,7 +279,15 @@ func runTyped(eng typed.Engine, s *rs.Schema, t *rs.Type, repr bool, keys []tkey
 				}
 			}
 			var ferr error
-			pan := core.Guard(func() { ferr = ma.Finish() })
+			pan := core.Guard(func() {
+				ferr = ma.Finish()
+				if ferr == nil && pla != nil {
+					ferr = pla.Finish()
+				}
+				if ferr == nil && pma != nil {
+					ferr = pma.Finish()
+				}
+			})
 			if pan != "" {
 				cause := "legal-call-panic"
 				if st.rejected != "" {
@@ -212,6 +322,18 @@ func runTyped(eng typed.Engine, s *rs.Schema, t *rs.Type, repr bool, keys []tkey
 				return []core.Finding{core.F(fmt.Sprintf("%s/build-panic(%s|%s)", site, after, core.Class(pan)), "%s: %s", where(i), pan)}, st, true
 			}
 			want := expectedValue(s, t, keys, st.done)
+			if parent != nil {
+				var all []string
+				for _, k := range keys {
+					all = append(all, k.own)
+				}
+				first := expectedValue(s, t, keys, all)
+				if parent.Kind == rs.TList {
+					want = ref.List(first, want)
+				} else {
+					want = ref.Map(ref.E(pown[0], first), ref.E(pown[1], want))
+				}
+			}
 			if !ref.Equal(got, want) {
 				cause := "result-differs"
 				if st.rejected != "" {
@@ -259,11 +381,11 @@ func runTyped(eng typed.Engine, s *rs.Schema, t *rs.Type, repr bool, keys []tkey
 				if kerr == nil && !dup {
 					switch vroute {
 					case "node":
-						kerr = va.AssignNode(ref.Basic(k.val))
+						kerr = va.AssignNode(ref.Basic(k.feed))
 					case "own":
 						// a node of the value's own type made by the same engine
 						cb := eng.Proto(s, k.typ, repr).NewBuilder()
-						if err := ref.Assign(cb, k.val); err != nil {
+						if err := ref.Assign(cb, k.feed); err != nil {
 							panic("harness: cannot prebuild " + k.typ + ": " + err.Error())
 						}
 						own := cb.Build()
@@ -272,7 +394,7 @@ func runTyped(eng typed.Engine, s *rs.Schema, t *rs.Type, repr bool, keys []tkey
 						}
 						kerr = va.AssignNode(own)
 					default:
-						kerr = ref.Assign(va, k.val)
+						kerr = ref.Assign(va, k.feed)
 					}
 					if kerr != nil {
 						at = "value assignment"
@@ -345,15 +467,28 @@ func enabledTyped(st tstate, keys []tkey) []string {
 		for _, route := range []string{"Entry", "KeyString", "KeyNode"} {
 			out = append(out, route+":"+k.name)
 		}
-		// the value given as an existing node: of another implementation, and of its own type
-		out = append(out, "Entry:"+k.name+"/node", "Entry:"+k.name+"/own", "KeyString:"+k.name+"/own")
+		// the value given as an existing node: of another implementation, and of its own type (a value
+		// of type Any has no typed node of its own: any node is one, which is the first of the two)
+		out = append(out, "Entry:"+k.name+"/node")
+		if k.typ != "Any" {
+			out = append(out, "Entry:"+k.name+"/own", "KeyString:"+k.name+"/own")
+		}
 	}
 	return append(out, "Finish")
 }
 
-func exploreTyped(r *core.Run, eng typed.Engine, s *rs.Schema, t *rs.Type, repr bool) {
+func exploreTyped(r *core.Run, eng typed.Engine, s *rs.Schema, t *rs.Type, repr bool, parent *rs.Type) {
+	pname := ""
+	if parent != nil {
+		pname = parent.Name
+	}
 	keys, ok := keysOf(s, t, repr)
 	if !ok || len(keys) == 0 || (!repr && s.ComplexKeys(t)) {
+		return
+	}
+	if r.Quick() && len(keys) > 4 {
+		// 6 keys × 6 routes: 9 million call sequences per level and engine — thorough tier only
+		r.Outcome("typed: more than 4 keys (thorough tier only)")
 		return
 	}
 	seen := map[string]bool{tstate{}.key(): true}
@@ -362,17 +497,17 @@ func exploreTyped(r *core.Run, eng typed.Engine, s *rs.Schema, t *rs.Type, repr 
 	for depth := 0; len(frontier) > 0 && depth < 2*len(keys)+4; depth++ {
 		var next [][]string
 		for _, cur := range frontier {
-			_, st, ended := runTyped(eng, s, t, repr, keys, cur)
+			_, st, ended := runTyped(eng, s, t, repr, keys, cur, parent)
 			if ended {
 				continue
 			}
 			states++
 			for _, c := range enabledTyped(st, keys) {
 				calls := append(append([]string(nil), cur...), c)
-				fs, st2, ended := runTyped(eng, s, t, repr, keys, calls)
+				fs, st2, ended := runTyped(eng, s, t, repr, keys, calls, parent)
 				trans++
 				r.Traces.Add(1)
-				r.Report("typed-calls", TCase{eng.Name(), s.Name, t.Name, repr, calls}, fs)
+				r.Report("typed-calls", TCase{eng.Name(), s.Name, t.Name, repr, calls, pname}, fs)
 				if len(fs) > 0 || ended {
 					continue
 				}
@@ -381,10 +516,10 @@ func exploreTyped(r *core.Run, eng typed.Engine, s *rs.Schema, t *rs.Type, repr 
 				// and compare with the model (a path merged away is still a path whose product was read).
 				if !st2.finished && !st2.built && canFinish(st2, keys) {
 					probe := append(append([]string(nil), calls...), "Finish", "Build")
-					pfs, _, _ := runTyped(eng, s, t, repr, keys, probe)
+					pfs, _, _ := runTyped(eng, s, t, repr, keys, probe, parent)
 					trans++
 					r.Traces.Add(1)
-					r.Report("typed-calls", TCase{eng.Name(), s.Name, t.Name, repr, probe}, pfs)
+					r.Report("typed-calls", TCase{eng.Name(), s.Name, t.Name, repr, probe, pname}, pfs)
 				}
 				if k := st2.key(); !seen[k] {
 					seen[k] = true
@@ -412,10 +547,10 @@ func exploreTyped(r *core.Run, eng typed.Engine, s *rs.Schema, t *rs.Type, repr 
 						if canFinish(st2, keys) {
 							probe = append(probe, "Finish", "Build")
 						}
-						pfs, _, _ := runTyped(eng, s, t, repr, keys, probe)
+						pfs, _, _ := runTyped(eng, s, t, repr, keys, probe, parent)
 						trans++
 						r.Traces.Add(1)
-						r.Report("typed-calls", TCase{eng.Name(), s.Name, t.Name, repr, probe}, pfs)
+						r.Report("typed-calls", TCase{eng.Name(), s.Name, t.Name, repr, probe, pname}, pfs)
 					}
 				}
 			}
@@ -427,6 +562,13 @@ func exploreTyped(r *core.Run, eng typed.Engine, s *rs.Schema, t *rs.Type, repr 
 	r.Transitions.Add(trans)
 	r.Evals.Add(trans)
 	r.NontrivialN(trans)
+	if os.Getenv("VERIF_C12_JOBS") != "" {
+		fmt.Fprintf(os.Stderr, "c12job %s %s.%s repr=%v parent=%s keys=%d states=%d trans=%d\n", eng.Name(), s.Name, t.Name, repr, pname, len(keys), states, trans)
+	}
+	if parent != nil {
+		r.Outcome(eng.Name() + "/typed-2nd-element:" + rs.Strategy(t))
+		return
+	}
 	r.Outcome(eng.Name() + "/typed:" + rs.Strategy(t))
 }
 
@@ -434,10 +576,11 @@ func init() {
 	typedMain = func(r *core.Run, b bounds) {
 		fams := rs.Families(true)
 		type job struct {
-			eng  typed.Engine
-			s    *rs.Schema
-			t    *rs.Type
-			repr bool
+			eng    typed.Engine
+			s      *rs.Schema
+			t      *rs.Type
+			repr   bool
+			parent *rs.Type
 		}
 		var jobs []job
 		for _, eng := range TypedEngines() {
@@ -447,13 +590,22 @@ func init() {
 				}
 				for _, tn := range s.Roots {
 					for _, repr := range []bool{false, true} {
-						jobs = append(jobs, job{eng, s, s.T(tn), repr})
+						jobs = append(jobs, job{eng, s, s.T(tn), repr, nil})
+					}
+					// the same search on the assembler of the second element of a list or map of a map-shaped
+					// type (a non-initial state of the element assembler, which implementations reuse)
+					if p := s.T(tn); (p.Kind == rs.TList || (p.Kind == rs.TMap && (p.KeyType == "" || p.KeyType == "String"))) && !p.ValNullable {
+						if vt := s.T(p.ValType); vt.Kind == rs.TStruct || vt.Kind == rs.TMap {
+							for _, repr := range []bool{false, true} {
+								jobs = append(jobs, job{eng, s, vt, repr, p})
+							}
+						}
 					}
 				}
 			}
 		}
-		core.ParallelFor(len(jobs), func(i int) { exploreTyped(r, jobs[i].eng, jobs[i].s, jobs[i].t, jobs[i].repr) })
-		r.Sample(TCase{"bindnode", "fam01", "SMswap", true, []string{"Entry:q", "KeyString:q", "KeyNode:p", "Finish", "Build"}})
+		core.ParallelFor(len(jobs), func(i int) { exploreTyped(r, jobs[i].eng, jobs[i].s, jobs[i].t, jobs[i].repr, jobs[i].parent) })
+		r.Sample(TCase{"bindnode", "fam01", "SMswap", true, []string{"Entry:q", "KeyString:q", "KeyNode:p", "Finish", "Build"}, ""})
 	}
 	typedReplay = func(r *core.Run, c Case) {}
 }
@@ -470,7 +622,11 @@ func ReplayTyped(r *core.Run, c TCase) {
 			}
 			t := s.T(c.Type)
 			keys, _ := keysOf(s, t, c.Repr)
-			fs, _, _ := runTyped(eng, s, t, c.Repr, keys, c.Calls)
+			var parent *rs.Type
+			if c.Parent != "" {
+				parent = s.T(c.Parent)
+			}
+			fs, _, _ := runTyped(eng, s, t, c.Repr, keys, c.Calls, parent)
 			r.Report("typed-calls", c, fs)
 		}
 	}
